@@ -14,6 +14,12 @@
 //         | 'Gb:' hash | 'Pb:' hash ':' content     the same with every pool buffer taken and the client gone
 //                                                   (handler called directly with a CloseNotifier recorder)
 //         | 'Ps:' hash ':' content                  PUT whose body is one byte shorter than its Content-Length
+// Unit-level cases for the byte loops (same driver, other first token):
+//   c01cmp <hash32> <expect hex|-> <chunks> <sep|last>    compareReaderWithBuf over a reader that returns the
+//        given chunks (',' separated hex, 'e' = a zero-length read, '-' = none), EOF on a separate read
+//        or together with the last chunk  ->  nil | collision | corrupt | err
+//   c01gwp <buflen> <chunks> <ok|ueof|notexist|other>     getWithPipe over a BlockReader that writes the chunks and
+//        ends that way  ->  <n>,<md5 of buf[:n]>,<nil|notexist|other>
 // One result line per case: per request
 //   G/H: <status>,<content-length header|->,<body length|->,<body md5|->
 //   P:   <status>,<X-Keep-Replicas-Stored|->,<fresh-router GET status>.<len>.<md5> | -
@@ -384,6 +390,122 @@ type verifC01NoLenReader struct{ r io.Reader }
 
 func (r verifC01NoLenReader) Read(p []byte) (int, error) { return r.r.Read(p) }
 
+type verifC01ChunkReader struct {
+	chunks      [][]byte
+	eofWithLast bool
+}
+
+func (r *verifC01ChunkReader) Read(p []byte) (int, error) {
+	if len(r.chunks) == 0 {
+		return 0, io.EOF
+	}
+	c := r.chunks[0]
+	n := copy(p, c)
+	if n < len(c) {
+		r.chunks[0] = c[n:]
+		return n, nil
+	}
+	r.chunks = r.chunks[1:]
+	if len(r.chunks) == 0 && r.eofWithLast {
+		return n, io.EOF
+	}
+	return n, nil
+}
+
+type verifC01StubBlockReader struct {
+	chunks [][]byte
+	end    error
+}
+
+func (s *verifC01StubBlockReader) ReadBlock(ctx context.Context, loc string, w io.Writer) error {
+	for _, c := range s.chunks {
+		if _, err := w.Write(c); err != nil {
+			return err
+		}
+	}
+	return s.end
+}
+
+func verifC01Chunks(s string) ([][]byte, error) {
+	if s == "-" {
+		return nil, nil
+	}
+	var out [][]byte
+	for _, c := range strings.Split(s, ",") {
+		if c == "e" {
+			out = append(out, []byte{})
+			continue
+		}
+		b, err := hex.DecodeString(c)
+		if err != nil || len(b) == 0 {
+			return nil, fmt.Errorf("bad chunk")
+		}
+		out = append(out, b)
+	}
+	return out, nil
+}
+
+func verifC01Unit(f []string) string {
+	switch {
+	case f[0] == "c01cmp" && len(f) == 5 && len(f[1]) == 32:
+		var expect []byte
+		if f[2] != "-" {
+			var err error
+			if expect, err = hex.DecodeString(f[2]); err != nil || len(expect) == 0 {
+				return "bad-op"
+			}
+		}
+		chunks, err := verifC01Chunks(f[3])
+		if err != nil || (f[4] != "sep" && f[4] != "last") {
+			return "bad-op"
+		}
+		err = compareReaderWithBuf(context.Background(), &verifC01ChunkReader{chunks, f[4] == "last"}, expect, f[1])
+		switch err {
+		case nil:
+			return "nil"
+		case CollisionError:
+			return "collision"
+		case DiskHashError:
+			return "corrupt"
+		}
+		return "err"
+	case f[0] == "c01gwp" && len(f) == 4:
+		n, err := strconv.Atoi(f[1])
+		if err != nil || n < 0 || n > 1<<20 {
+			return "bad-op"
+		}
+		chunks, err := verifC01Chunks(f[2])
+		if err != nil {
+			return "bad-op"
+		}
+		var end error
+		switch f[3] {
+		case "ok":
+		case "ueof":
+			end = io.ErrUnexpectedEOF
+		case "notexist":
+			end = os.ErrNotExist
+		case "other":
+			end = fmt.Errorf("stub failure")
+		default:
+			return "bad-op"
+		}
+		buf := make([]byte, n)
+		got, err := getWithPipe(context.Background(), "x", buf, &verifC01StubBlockReader{chunks, end})
+		class := "nil"
+		if os.IsNotExist(err) {
+			class = "notexist"
+		} else if err != nil {
+			class = "other"
+		}
+		if got < 0 || got > n {
+			return fmt.Sprintf("%d,out-of-range,%s", got, class)
+		}
+		return fmt.Sprintf("%d,%x,%s", got, md5.Sum(buf[:got]), class)
+	}
+	return "bad-op"
+}
+
 func verifC01Case(line string, tmpParent string) (out string) {
 	defer func() {
 		if r := recover(); r != nil {
@@ -391,6 +513,9 @@ func verifC01Case(line string, tmpParent string) (out string) {
 		}
 	}()
 	f := strings.Split(line, " ")
+	if f[0] == "c01cmp" || f[0] == "c01gwp" {
+		return verifC01Unit(f)
+	}
 	if len(f) != 3 || f[0] != "c01" {
 		return "bad-op"
 	}
